@@ -5,6 +5,7 @@ package main
 import (
 	"fmt"
 	"go/types"
+	"math/big"
 	"os"
 	"strings"
 
@@ -432,6 +433,10 @@ func (x *Exec) loadAddr(st *State, a *Addr) Val {
 	case AGlobal:
 		if isErrorType(a.T) {
 			return x.errConst(a.Key)
+		}
+		if a.Final != "" {
+			n, _ := new(big.Int).SetString(a.Final, 10)
+			return intVal(sBig(n), a.T)
 		}
 		return x.readComps(st, a.Key, a.T, "0")
 	case AElem:
